@@ -1,11 +1,553 @@
-//! C05 (not built yet)
-use crate::report::{Disagreement, Run};
-use serde_json::Value;
+//! C05 Every formula value is consistent with its inputs; #CIRC! exactly on cycles.
+//!
+//! Space: every workbook over {Sheet1!A1, A2, B1, B2, Sheet2!A1} with each cell drawn from GAMMA (constants of every
+//! kind and formulas: references, a range aggregate, concatenation, arithmetic, a conditional, cross-sheet references
+//! both ways, a defined name), plus dependency chains of length 50 / 500 in both directions and a two-sheet ping-pong.
+//! Oracle 1 (local consistency): every formula cell is re-evaluated alone, in a fresh model in which every other stored
+//! cell holds the full workbook's current value as a constant; the value must be identical.
+//! Oracle 2 (cycles): the static reference graph is built from the public AST; a cell on a cycle of unconditional edges
+//! must show #CIRC! (when no other error is reachable that could legitimately pre-empt it), and a cell showing #CIRC! must
+//! be on a static cycle or directly read a cell showing #CIRC!.
 
-pub fn run(run: &mut Run) {
-    run.machinery_errors.push("C05: check not built yet".into());
+use crate::cellval::{a1, all_cells, cell_val, Val};
+use crate::env::guarded;
+use crate::report::{Disagreement, Run};
+use ironcalc_base::expressions::parser::Node;
+use ironcalc_base::expressions::token::Error;
+use ironcalc_base::types::Cell;
+use ironcalc_base::{Function, Model};
+use serde_json::{json, Value};
+use std::collections::{BTreeMap, BTreeSet};
+
+type Pos = (u32, i32, i32);
+
+pub const CELLS: [Pos; 5] = [(0, 1, 1), (0, 2, 1), (0, 1, 2), (0, 2, 2), (1, 1, 1)];
+
+pub const GAMMA: [&str; 14] = [
+    "",
+    "1",
+    "a",
+    "TRUE",
+    "#DIV/0!",
+    "=A1",
+    "=B1+1",
+    "=A2&B2",
+    "=SUM(A1:B2)",
+    "=Sheet2!A1",
+    "=Sheet1!A1",
+    "=IF(A2>0,B1,B2)",
+    "=nm",
+    "=1E308*10",
+];
+/// quick tier: the sub-alphabet (indices into GAMMA) used for the fifth cell (Sheet2!A1); all 13 in thorough
+const QUICK_S2: [usize; 5] = [0, 1, 5, 6, 10];
+
+const NAME: &str = "nm";
+const NAME_TARGET: &str = "Sheet1!$B$2";
+const NAME_POS: Pos = (0, 2, 2);
+
+fn pos_name(p: Pos) -> String {
+    format!("Sheet{}!{}", p.0 + 1, a1(p.1, p.2))
 }
 
-pub fn replay(_case: &Value) -> Vec<Disagreement> {
-    vec![]
+fn new_model(sheets: usize, with_name: bool) -> Result<Model<'static>, String> {
+    let mut m = Model::new_empty("m", "en", "UTC", "en")?;
+    for i in 1..sheets {
+        m.add_sheet(&format!("Sheet{}", i + 1))?;
+    }
+    if with_name {
+        m.new_defined_name(NAME, None, NAME_TARGET)?;
+    }
+    Ok(m)
+}
+
+fn build(sheets: usize, with_name: bool, inputs: &[(Pos, String)]) -> Result<Model<'static>, String> {
+    let mut m = new_model(sheets, with_name)?;
+    for (p, t) in inputs {
+        if !t.is_empty() {
+            m.set_user_input(p.0, p.1, p.2, t.clone())?;
+        }
+    }
+    m.evaluate();
+    Ok(m)
+}
+
+fn set_const(m: &mut Model, p: Pos, v: &Val) -> Result<(), String> {
+    match v {
+        Val::Blank => Ok(()),
+        Val::Num(n) => m.update_cell_with_number(p.0, p.1, p.2, *n),
+        Val::Str(s) => m.update_cell_with_text(p.0, p.1, p.2, s),
+        Val::Bool(b) => m.update_cell_with_bool(p.0, p.1, p.2, *b),
+        Val::Err(e) => m.set_user_input(p.0, p.1, p.2, format!("{}", e)),
+        Val::Unevaluated => Err("unevaluated cell".into()),
+    }?;
+    let back = cell_val(m, p.0, p.1, p.2);
+    if &back != v {
+        return Err(format!("harness: constant {} written to {} reads back as {}", v.show(), pos_name(p), back.show()));
+    }
+    Ok(())
+}
+
+/// Value of the formula `text` at `c` evaluated alone over the constants `values` (all other stored cells).
+fn alone(sheets: usize, with_name: bool, c: Pos, text: &str, values: &BTreeMap<Pos, Val>) -> Result<Val, String> {
+    let mut m = new_model(sheets, with_name)?;
+    for (p, v) in values {
+        if *p != c {
+            set_const(&mut m, *p, v)?;
+        }
+    }
+    m.set_user_input(c.0, c.1, c.2, text.to_string())?;
+    m.evaluate();
+    Ok(cell_val(&m, c.0, c.1, c.2))
+}
+
+// ---------- static reference graph from the public AST ----------
+
+#[derive(Default)]
+struct Reads {
+    /// (target, unconditional?)
+    edges: Vec<(Pos, bool)>,
+    /// a construct the walker does not understand: no cycle obligation is derived for this cell
+    opaque: bool,
+}
+
+fn walk(n: &Node, at: Pos, strict: bool, universe: &BTreeSet<Pos>, out: &mut Reads) {
+    match n {
+        Node::BooleanKind(_) | Node::NumberKind(_) | Node::StringKind(_) | Node::ErrorKind(_) | Node::EmptyArgKind => {}
+        Node::ReferenceKind { sheet_index, absolute_row, absolute_column, row, column, .. } => {
+            let r = if *absolute_row { *row } else { *row + at.1 };
+            let c = if *absolute_column { *column } else { *column + at.2 };
+            out.edges.push(((*sheet_index, r, c), strict));
+        }
+        Node::RangeKind { sheet_index, absolute_row1, absolute_column1, row1, column1, absolute_row2, absolute_column2, row2, column2, .. } => {
+            let r1 = if *absolute_row1 { *row1 } else { *row1 + at.1 };
+            let c1 = if *absolute_column1 { *column1 } else { *column1 + at.2 };
+            let r2 = if *absolute_row2 { *row2 } else { *row2 + at.1 };
+            let c2 = if *absolute_column2 { *column2 } else { *column2 + at.2 };
+            for p in universe {
+                if p.0 == *sheet_index && p.1 >= r1.min(r2) && p.1 <= r1.max(r2) && p.2 >= c1.min(c2) && p.2 <= c1.max(c2) {
+                    out.edges.push((*p, strict));
+                }
+            }
+        }
+        Node::OpConcatenateKind { left, right }
+        | Node::OpSumKind { left, right, .. }
+        | Node::OpProductKind { left, right, .. }
+        | Node::OpPowerKind { left, right }
+        | Node::CompareKind { left, right, .. } => {
+            walk(left, at, strict, universe, out);
+            walk(right, at, strict, universe, out);
+        }
+        Node::UnaryKind { right, .. } => walk(right, at, strict, universe, out),
+        Node::ImplicitIntersection { child, .. } => walk(child, at, strict, universe, out),
+        Node::FunctionKind { kind, args } => match kind {
+            Function::Sum => {
+                for a in args {
+                    walk(a, at, strict, universe, out);
+                }
+            }
+            Function::If => {
+                for (i, a) in args.iter().enumerate() {
+                    walk(a, at, strict && i == 0, universe, out);
+                }
+            }
+            _ => {
+                for a in args {
+                    walk(a, at, false, universe, out);
+                }
+            }
+        },
+        Node::DefinedNameKind((name, _, _)) => {
+            if name.eq_ignore_ascii_case(NAME) {
+                out.edges.push((NAME_POS, strict));
+            } else {
+                out.opaque = true;
+            }
+        }
+        _ => out.opaque = true,
+    }
+}
+
+fn reachable(from: Pos, g: &BTreeMap<Pos, Vec<Pos>>) -> BTreeSet<Pos> {
+    // cells reachable in >= 1 step
+    let mut seen = BTreeSet::new();
+    let mut stack: Vec<Pos> = g.get(&from).cloned().unwrap_or_default();
+    while let Some(p) = stack.pop() {
+        if seen.insert(p) {
+            if let Some(n) = g.get(&p) {
+                stack.extend(n.iter().copied());
+            }
+        }
+    }
+    seen
+}
+
+struct Judged {
+    ds: Vec<(String, String)>,
+    formulas: usize,
+    dep_edges: usize,
+    models: u64,
+    digest: u128,
+    circ: usize,
+}
+
+/// Both oracles on one evaluated model. `inputs` maps the formula cells to their input text (and a symbol for the sig).
+fn judge(m: &Model, sheets: usize, with_name: bool, inputs: &[(Pos, String)], sym: &dyn Fn(Pos) -> String, narrow: bool) -> Judged {
+    let mut out = Judged { ds: vec![], formulas: 0, dep_edges: 0, models: 0, digest: 0, circ: 0 };
+    let mut values: BTreeMap<Pos, Val> = BTreeMap::new();
+    let mut formula_cells: Vec<(Pos, i32)> = vec![];
+    for (s, r, c, cell) in all_cells(m) {
+        let v = crate::cellval::val_of_cell(m, Some(cell));
+        if v != Val::Blank {
+            values.insert((s, r, c), v);
+        }
+        match cell {
+            Cell::CellFormula { f, .. } | Cell::ArrayFormula { f, .. } => formula_cells.push(((s, r, c), *f)),
+            _ => {}
+        }
+    }
+    let mut text = String::new();
+    for (p, v) in &values {
+        text.push_str(&format!("{}={};", pos_name(*p), v.show()));
+    }
+    out.digest = crate::env::digest(&text);
+    out.formulas = formula_cells.len();
+    let input_of: BTreeMap<Pos, &String> = inputs.iter().map(|(p, t)| (*p, t)).collect();
+    let universe: BTreeSet<Pos> = values.keys().copied().chain(inputs.iter().map(|x| x.0)).collect();
+
+    // oracle 1
+    for (p, _) in &formula_cells {
+        let t = match input_of.get(p) {
+            Some(t) => (*t).clone(),
+            None => continue,
+        };
+        let full = values.get(p).cloned().unwrap_or(Val::Blank);
+        if full == Val::Unevaluated {
+            out.ds.push((format!("formula cell left unevaluated: formula=`{}`", sym(*p)), format!("{} `{}` holds no value after evaluate()", pos_name(*p), t)));
+            continue;
+        }
+        out.models += 1;
+        // long chains: only the cells the formula statically reads are given as constants (500 x 500 constants otherwise)
+        let narrowed: BTreeMap<Pos, Val>;
+        let values_for_p: &BTreeMap<Pos, Val> = if narrow {
+            let f = formula_cells.iter().find(|x| x.0 == *p).map(|x| x.1).unwrap_or(0);
+            let mut reads = Reads::default();
+            if let Some((n, _)) = m.parsed_formulas.get(p.0 as usize).and_then(|v| v.get(f as usize)) {
+                walk(n, *p, true, &universe, &mut reads);
+            }
+            if reads.opaque {
+                &values
+            } else {
+                let targets: BTreeSet<Pos> = reads.edges.iter().map(|e| e.0).collect();
+                narrowed = values.iter().filter(|(k, _)| targets.contains(k)).map(|(k, v)| (*k, v.clone())).collect();
+                &narrowed
+            }
+        } else {
+            &values
+        };
+        match alone(sheets, with_name, *p, &t, values_for_p) {
+            Ok(v) => {
+                if v != full {
+                    // one defect class, recognised by explanation: evaluate_cell hands the *raw* result of a formula to the
+                    // reader that demands it first (blank for an empty reference, +-inf for an overflow) while the cell
+                    // stores 0 / #NUM!. Re-evaluate with some 0-valued formula cells taken as blank and some #NUM! formula
+                    // cells taken as infinite: if that reproduces the workbook's value, this is that class.
+                    let zeros: Vec<Pos> = formula_cells.iter().map(|x| x.0).filter(|q| q != p && values.get(q) == Some(&Val::Num(0.0))).collect();
+                    let nums: Vec<Pos> = formula_cells.iter().map(|x| x.0).filter(|q| q != p && values.get(q) == Some(&Val::Err(Error::NUM))).collect();
+                    let cand: Vec<(Pos, bool)> = zeros.iter().map(|z| (*z, true)).chain(nums.iter().map(|z| (*z, false))).take(6).collect();
+                    let mut explained: Option<(bool, bool)> = None;
+                    'outer: for mask in 1u32..(1u32 << cand.len()) {
+                        for inf in [f64::INFINITY, f64::NEG_INFINITY] {
+                            let mut vs = values.clone();
+                            let (mut ub, mut ui) = (false, false);
+                            for (i, (z, is_zero)) in cand.iter().enumerate() {
+                                if mask & (1 << i) != 0 {
+                                    if *is_zero {
+                                        vs.remove(z);
+                                        ub = true;
+                                    } else {
+                                        vs.insert(*z, Val::Num(inf));
+                                        ui = true;
+                                    }
+                                }
+                            }
+                            if !ui && inf < 0.0 {
+                                continue;
+                            }
+                            out.models += 1;
+                            if alone(sheets, with_name, *p, &t, &vs).ok().as_ref() == Some(&full) {
+                                explained = Some((ub, ui));
+                                break 'outer;
+                            }
+                        }
+                    }
+                    if let Some((ub, ui)) = explained {
+                        let what = match (ub, ui) {
+                            (true, false) => "blank where the read formula cell shows 0",
+                            (false, true) => "the raw non-finite number where the read formula cell shows #NUM!",
+                            _ => "raw results (blank and non-finite) where the read formula cells show 0 and #NUM!",
+                        };
+                        out.ds.push((
+                            format!("reader sees {}: reader=`{}`", what, sym(*p)),
+                            format!("{} `{}` shows {} in the workbook; over the current values it evaluates to {}; it shows what it would if formula cells displaying 0 (empty reference) / #NUM! (overflow) were blank / infinite\nvalues: {}", pos_name(*p), t, full.show(), v.show(), text),
+                        ));
+                        continue;
+                    }
+                    out.ds.push((
+                        format!("value differs from re-evaluation over current values: formula=`{}` in-workbook={} alone={}", sym(*p), full.kind(), v.kind()),
+                        format!("{} `{}` shows {} in the workbook but evaluates to {} over the current values of all other cells\nvalues: {}", pos_name(*p), t, full.show(), v.show(), text),
+                    ));
+                }
+            }
+            Err(e) => out.ds.push((format!("harness: single-formula model failed: {}", e), e.clone())),
+        }
+    }
+
+    // oracle 2
+    let mut g_all: BTreeMap<Pos, Vec<Pos>> = BTreeMap::new();
+    let mut g_strict: BTreeMap<Pos, Vec<Pos>> = BTreeMap::new();
+    let mut opaque: BTreeSet<Pos> = BTreeSet::new();
+    let is_formula: BTreeSet<Pos> = formula_cells.iter().map(|x| x.0).collect();
+    for (p, f) in &formula_cells {
+        let node = match m.parsed_formulas.get(p.0 as usize).and_then(|v| v.get(*f as usize)) {
+            Some((n, _)) => n,
+            None => {
+                opaque.insert(*p);
+                continue;
+            }
+        };
+        let mut reads = Reads::default();
+        walk(node, *p, true, &universe, &mut reads);
+        if reads.opaque {
+            opaque.insert(*p);
+        }
+        for (t, strict) in reads.edges {
+            g_all.entry(*p).or_default().push(t);
+            if strict {
+                g_strict.entry(*p).or_default().push(t);
+            }
+            if is_formula.contains(&t) && t != *p {
+                out.dep_edges += 1;
+            }
+        }
+    }
+    let circ = Val::Err(Error::CIRC);
+    for (p, _) in &formula_cells {
+        let v = values.get(p).cloned().unwrap_or(Val::Blank);
+        let reach_all = reachable(*p, &g_all);
+        let on_cycle_all = reach_all.contains(p);
+        let on_cycle_strict = reachable(*p, &g_strict).contains(p);
+        if v == circ {
+            out.circ += 1;
+        }
+        let any_opaque = opaque.contains(p) || reach_all.iter().any(|q| opaque.contains(q));
+        if on_cycle_strict && v != circ && !any_opaque {
+            // another error reachable from here may legitimately pre-empt the cycle: unspecified
+            let other_error = reach_all.iter().chain(std::iter::once(p)).any(|q| matches!(values.get(q), Some(Val::Err(e)) if *e != Error::CIRC));
+            if !other_error {
+                out.ds.push((
+                    format!("cell on a reference cycle does not show #CIRC!: formula=`{}` shows={}", sym(*p), v.kind()),
+                    format!("{} is on a cycle of unconditional references and no other error is reachable, but shows {}\nvalues: {}", pos_name(*p), v.show(), text),
+                ));
+            }
+        }
+        if v == circ && !on_cycle_all && !any_opaque {
+            let reads_circ = g_all.get(p).map(|ts| ts.iter().any(|t| values.get(t) == Some(&circ))).unwrap_or(false);
+            if !reads_circ {
+                out.ds.push((
+                    format!("#CIRC! shown off-cycle: formula=`{}`", sym(*p)),
+                    format!("{} shows #CIRC! but is on no reference cycle and reads no cell showing #CIRC!\nvalues: {}", pos_name(*p), text),
+                ));
+            }
+        }
+    }
+    out
+}
+
+// ---------- cases ----------
+
+fn inputs_of_case(case: &Value) -> Option<(usize, bool, Vec<(Pos, String)>)> {
+    match case["kind"].as_str()? {
+        "grid" => {
+            let c = case["contents"].as_array()?;
+            let v: Vec<(Pos, String)> = CELLS.iter().zip(c.iter()).map(|(p, t)| (*p, t.as_str().unwrap_or("").to_string())).collect();
+            Some((2, true, v))
+        }
+        "chain" => {
+            let n = case["n"].as_u64()? as i32;
+            let fwd = case["dir"].as_str()? == "forward";
+            let mut v = vec![];
+            for i in 1..=n {
+                let t = if fwd {
+                    if i == 1 { "1".to_string() } else { format!("=A{}+1", i - 1) }
+                } else if i == n {
+                    "1".to_string()
+                } else {
+                    format!("=A{}+1", i + 1)
+                };
+                v.push(((0u32, i, 1), t));
+            }
+            Some((1, false, v))
+        }
+        "pingpong" => {
+            let n = case["n"].as_u64()? as i32;
+            let mut v = vec![];
+            for i in 1..=n {
+                v.push(((0u32, i, 1), format!("=Sheet2!A{}+1", i)));
+                v.push(((1u32, i, 1), format!("=Sheet1!A{}+1", i + 1)));
+            }
+            v.push(((0u32, n + 1, 1), "1".to_string()));
+            Some((2, false, v))
+        }
+        _ => None,
+    }
+}
+
+struct CaseOut {
+    ds: Vec<Disagreement>,
+    j: Option<Judged>,
+}
+
+fn check_case(case: &Value) -> CaseOut {
+    let (sheets, with_name, inputs) = match inputs_of_case(case) {
+        Some(x) => x,
+        None => return CaseOut { ds: vec![], j: None },
+    };
+    let grid = case["kind"] == "grid";
+    let r = guarded(|| -> Result<Judged, String> {
+        let m = build(sheets, with_name, &inputs)?;
+        let sym = |p: Pos| -> String {
+            if grid {
+                inputs.iter().find(|x| x.0 == p).map(|x| x.1.clone()).unwrap_or_default()
+            } else {
+                format!("{} link", case["kind"].as_str().unwrap_or(""))
+            }
+        };
+        let mut j = judge(&m, sheets, with_name, &inputs, &sym, !grid);
+        // chains have a closed form as well
+        if !grid {
+            let n = case["n"].as_u64().unwrap_or(0) as i32;
+            let expect = |p: Pos| -> f64 {
+                match case["kind"].as_str().unwrap_or("") {
+                    "chain" if case["dir"] == "forward" => p.1 as f64,
+                    "chain" => (n - p.1 + 1) as f64,
+                    _ => (2 * (n - p.1 + 1) + 1 - p.0 as i32) as f64,
+                }
+            };
+            for (p, _) in &inputs {
+                let v = cell_val(&m, p.0, p.1, p.2);
+                if v != Val::Num(expect(*p)) {
+                    j.ds.push((
+                        format!("{} value wrong: got={}", case["kind"].as_str().unwrap_or(""), v.kind()),
+                        format!("{} shows {} expected {}", pos_name(*p), v.show(), expect(*p)),
+                    ));
+                    break;
+                }
+            }
+        }
+        Ok(j)
+    });
+    match r {
+        Ok(Ok(j)) => CaseOut {
+            ds: j.ds.iter().map(|(sig, detail)| Disagreement { sig: sig.clone(), case: case.clone(), detail: detail.clone() }).collect(),
+            j: Some(j),
+        },
+        Ok(Err(e)) => CaseOut {
+            ds: vec![Disagreement { sig: format!("building the workbook failed: {}", e), case: case.clone(), detail: e }],
+            j: None,
+        },
+        Err(p) => CaseOut {
+            ds: vec![Disagreement { sig: format!("panic at={}", p.rsplit(" @ ").next().unwrap_or("")), case: case.clone(), detail: p }],
+            j: None,
+        },
+    }
+}
+
+fn grid_case(idx: &[usize; 5]) -> Value {
+    json!({"kind": "grid", "contents": idx.iter().map(|i| GAMMA[*i]).collect::<Vec<_>>()})
+}
+
+pub fn run(run: &mut Run) {
+    let thorough = run.tier.thorough();
+    let g = GAMMA.len();
+    let s2: Vec<usize> = if thorough { (0..g).collect() } else { QUICK_S2.to_vec() };
+    let n_grid = g * g * g * g * s2.len();
+    let mut extra: Vec<Value> = vec![];
+    for n in if thorough { vec![50u64, 500] } else { vec![50u64, 200] } {
+        extra.push(json!({"kind": "chain", "n": n, "dir": "forward"}));
+        extra.push(json!({"kind": "chain", "n": n, "dir": "backward"}));
+    }
+    extra.push(json!({"kind": "pingpong", "n": if thorough { 100 } else { 30 }}));
+    let chunk = 256;
+    let n_units = n_grid.div_ceil(chunk) + extra.len();
+    let grid_units = n_grid.div_ceil(chunk);
+    let res = crate::env::par_units(n_units, |u| {
+        let mut ds = vec![];
+        let (mut formulas, mut models, mut nontrivial, mut circ) = (0u64, 0u64, 0u64, 0u64);
+        let mut digests: Vec<u128> = vec![];
+        let mut one = |case: &Value| {
+            let o = check_case(case);
+            ds.extend(o.ds);
+            if let Some(j) = o.j {
+                formulas += j.formulas as u64;
+                models += 1 + j.models;
+                if j.dep_edges > 0 {
+                    nontrivial += 1;
+                }
+                circ += (j.circ > 0) as u64;
+                digests.push(j.digest);
+            }
+        };
+        if u < grid_units {
+            for k in u * chunk..((u + 1) * chunk).min(n_grid) {
+                let mut kk = k;
+                let mut idx = [0usize; 5];
+                for slot in idx.iter_mut().take(4) {
+                    *slot = kk % g;
+                    kk /= g;
+                }
+                idx[4] = s2[kk];
+                one(&grid_case(&idx));
+            }
+        } else {
+            one(&extra[u - grid_units]);
+        }
+        (ds, formulas, models, nontrivial, circ, digests)
+    });
+    let mut outcomes: BTreeSet<u128> = BTreeSet::new();
+    let mut circ_total = 0u64;
+    for r in res {
+        match r {
+            Ok((ds, f, mo, nt, circ, dg)) => {
+                run.add_all(ds);
+                run.transitions += f;
+                run.traces += mo;
+                run.nontrivial += nt;
+                circ_total += circ;
+                outcomes.extend(dg);
+            }
+            Err(e) => run.machinery_errors.push(format!("unit panicked: {}", e)),
+        }
+    }
+    run.evaluations = (n_grid + extra.len()) as u64;
+    run.states = run.evaluations;
+    run.distinct_outcomes = outcomes.len() as u64;
+    run.extra.insert("workbooks_showing_circ".into(), json!(circ_total));
+    run.extra.insert("formula_cells_checked".into(), json!(run.transitions));
+    run.rule = "a workbook is non-trivial when at least one formula cell reads another formula cell (a dependency order exists)".into();
+    run.bound = json!({"cells": ["Sheet1!A1","Sheet1!A2","Sheet1!B1","Sheet1!B2","Sheet2!A1"], "alphabet": GAMMA,
+        "alphabet_of_Sheet2!A1": s2.iter().map(|i| GAMMA[*i]).collect::<Vec<_>>(), "defined_name": {"nm": NAME_TARGET},
+        "grid_workbooks": n_grid, "extra": extra});
+    run.sample(grid_case(&[6, 5, 7, 8, 10]));
+    run.sample(grid_case(&[11, 1, 5, 12, 6]));
+    run.sample(extra[1].clone());
+    run.exhaustive = true;
+    run.assume("oracle 1 uses the engine itself as a single-formula evaluator over constant cells (independent of evaluation order, marks and caches, not of operator semantics: that is C06)");
+    run.assume("a cycle obligation is waived when an error other than #CIRC! is reachable from the cell (it may legitimately pre-empt the cycle) and for edges under IF branches / functions other than SUM");
+    run.assume("values are compared exactly (kind and value); error origin/message texts are not compared");
+    run.assume("for the chain / ping-pong workbooks the single-formula model holds only the cells the formula statically reads (grid workbooks: all other cells)");
+}
+
+pub fn replay(case: &Value) -> Vec<Disagreement> {
+    check_case(case).ds
 }
